@@ -210,7 +210,7 @@ def tria_compute_gradient(tria, vfunc):
     ln = np.sqrt(np.sum(n * n, axis=1))
     ln[ln < sys.float_info.epsilon] = 1  # avoid division by zero
     lni = np.divide(1.0, ln)[:, np.newaxis]
-    n *= lni
+    n = n * lni
     # sum three weighted edges
     c0 = vfunc[tria.t[:, 0], np.newaxis] * e0
     c1 = vfunc[tria.t[:, 1], np.newaxis] * e1
@@ -318,7 +318,7 @@ def tria_compute_divergence2(tria, tfunc):
     ln = np.sqrt(np.sum(n * n, axis=1))
     ln[ln < sys.float_info.epsilon] = 1  # avoid division by zero
     lni = np.divide(1.0, ln)[:, np.newaxis]
-    n *= lni
+    n = n * lni
     c0 = np.cross(e0, n)
     c1 = np.cross(e1, n)
     c2 = np.cross(e2, n)
